@@ -119,3 +119,31 @@ prop("C07", shards=16,
      level_note="Trusted: harness/ref/frame (+ref/leb, compress/zlib). Not asserted: rejection of a data-length-0 packet larger than "
                 "2 MiB inside compression mode, nor of a data length that disagrees with the inflated size (the statement lists "
                 "negative, above maximum, and non-zero below threshold).")
+
+prop("C11", shards=16, exhaustive_ok=False,
+     technique="model-based rapid histories against a reference packer + exhaustive enumeration over small (b, n)",
+     rule="Histories (1..50 ops, thorough 200) over b in 0..32, n in {0..130, 256, 4096, ...}, optional initial raw longs from the "
+          "reference packer: Set/Swap/Get at boundary indices (0, 1, vpl-1, vpl, vpl+1, n-1, last partial long) with boundary values "
+          "(0, 1, mask/2+1, mask, random), invalid calls (index -1/n/n+1, value -1/mask+1), re-construction from Raw(), wire round trip "
+          "(WriteTo -> ReadFrom into a storage of other width -> Fix), wrong raw length to constructor and Fix. After every step "
+          "Raw() == reference packing of a []uint64 model. Plus TestC11Enum: ALL b in 1..32 x n in 0..130 x every index x 5 boundary "
+          "values, Swap result and whole raw array compared each time (both tiers). Non-trivial: b does not divide 64 or the touched "
+          "index is first/last of a long or in the last partial long. Distinct: hash of history; enumerated calls counted arithmetically.",
+     level_text="Model-based sampling of histories plus a complete enumeration of the (b <= 32, n <= 130, index, boundary value) grid.",
+     level_note="Trusted: harness/ref/bits (Pack/Unpack, 30 lines). For b = 0 only 'every Get is 0' is asserted (invalid calls are not).")
+
+prop("C12", shards=16,
+     technique="model-based rapid histories against a []int model and an independent paletted-container reader",
+     rule="Kind in {blocks (4096 entries, ids over the whole state registry), biomes (64 entries)}; a value pool whose size is drawn "
+          "from the upgrade boundaries (1,2,3,15,16,17,31,32,33,64,65,128,129,255,256,257,300 / 1,2,3,4,5,7,8,9,16,20); history of "
+          "Set(i, pool[k]), bulk fill of the first k pool values (crosses several representation changes), Get, WriteTo -> "
+          "independent decode (bits byte, palette, data array length = ceil(len/floor(64/bits)), every index inside the palette) -> "
+          "ReadFrom into a fresh container or one that lived through its own generated history, then the history continues on the "
+          "copy. After every mutating step all positions are compared with the model. C12Save: containers built from save-form "
+          "palette+data (palette sizes across the same boundaries and in between; width from the palette size: blocks max(4,ceil "
+          "log2 n), biomes ceil log2 n) must agree with the reference reading and be writable to a conformant wire form. "
+          "Non-trivial: history crosses a representation change, or mutates after a wire round trip, or reads into a used "
+          "container; save case with > 1 palette entry. Distinct: hash of the JSON case.",
+     level_text="Model-based sampling of histories steered through every palette upgrade boundary.",
+     level_note="Trusted: harness/ref/pal + ref/bits + ref/leb; go-mc's block/biome tables only for the id ranges. Vanilla width rules: "
+                "blocks bits byte 0 / 1..4 -> 4 bits / 5..8 / >= 9 direct 15 bits; biomes 0 / 1..3 / >= 4 direct 6 bits.")
